@@ -440,3 +440,604 @@ Proof.
   cbn zeta. split; [eexists; split; [reflexivity|apply ffinite_SF; reflexivity]|].
   cbn [length Nat.sub Nat.mul Nat.add INR]. pose proof u64_small. lra.
 Qed.
+
+(* package polyexact (round 4): pin blocks for the binary64 / Complex<f64> EXACTNESS theorems of C11 and C12
+   ("all of this holds exactly for exactly-representable coefficients"; "exactly over exact coefficients").
+   Format of CONVENTIONS section 2.  No scope is opened: integers carry %Z, floats %float.
+
+   Vocabulary (definitions in the files named):
+     ExactW x z   Proofs/ParDotFloat.v   the float x is finite and its real value is the integer z (a zero: either sign)
+     Exact  x z   Proofs/ParDotFloat.v   ... and x is not the negative zero: the bit pattern of x is determined by z
+     AZ, AZC      Proofs/PolyExact.v     the integers / the Gaussian integers as an arithmetic: the model functions of
+                                         Model/Poly.v run there too, and give the exact results the floats are compared with;
+                                         AZ's div answers only when the divisor divides (Panic Guard otherwise)
+     horner p x   Proofs/Poly.v          a_0 + x (a_1 + x (...)): the value of p at x (peval p x = Ok (horner p x) over a ring)
+     eval_fits zs x   := horner |zs| |x| < 2^53          (sum_i |a_i| |x|^i < 2^53)            Proofs/PolyExactF.v
+     pmul_fits zs ws  := every coefficient of |zs| * |ws| is < 2^53  (sum_i |a_i| |b_(k-i)|)   Proofs/PolyExactF.v
+     same_value r r' z := ExactW r z /\ ExactW r' z /\ (r == r') = true /\ (z <> 0 -> r = r') Proofs/PolyExactF.v
+     geom n xi    := 1 + xi + ... + xi^(n-1)                                                   Proofs/PolyExactB.v
+     CExactW, CExact, cn1 g = |re g| + |im g|, ceval_fits                                      Proofs/PolyExactC.v
+     polydiv_fits N D u v : every pass of the integer long division fits below 2^53              Proofs/PolyExactDiv.v *)
+From Coq Require Import ZArith Reals Floats Lia List Bool Arith.
+From OV Require Import Base.Panic Base.Arith gen.Params Model.Poly Model.Complex Inst.FloatInst Proofs.Poly
+  Proofs.ParDotFloat Proofs.PolyExact Proofs.PolyExactF Proofs.PolyExactB Proofs.PolyExactC Proofs.PolyExactDiv
+  Proofs.PolyExactDivZ Proofs.PolyExactDivF Proofs.PolyExactDivC Proofs.PolyExactEx.
+Import ListNotations.
+
+(* ==== C11 ==== *)
+(* binary64, integer-valued coefficients (p ~ zs, q ~ ws, s ~ sz through ExactW): every operation returns the float images
+   of what the SAME model function returns over the integers, provided the exact results (for the product: the sums
+   sum_i |a_i| |b_(k-i)|; for the derivative, which adds a_(i+1) to zero i+1 times: the results (i+1) a_(i+1)) are below 2^53.
+   Products, derivatives never contain a negative zero (Exact).  pderiv_n: every derivative of order 1..n must fit.
+   Panics: exactly those of the integer run (pderiv zs = Ok dz is part of the hypothesis: the empty polynomial) *)
+Theorem poly_ops_exact_float : forall (p q : list PrimFloat.float) (zs ws : list Z) (s : PrimFloat.float) (sz : Z),
+  Forall2 ExactW p zs -> Forall2 ExactW q ws -> ExactW s sz ->
+  (Forall (fun c : Z => (Z.abs c < 2 ^ 53)%Z) (padd (A := AZ) zs ws) -> Forall2 ExactW (padd (A := AF) p q) (padd (A := AZ) zs ws)) /\
+  (Forall (fun c : Z => (Z.abs c < 2 ^ 53)%Z) (psub (A := AZ) zs ws) -> Forall2 ExactW (psub (A := AF) p q) (psub (A := AZ) zs ws)) /\
+  Forall2 ExactW (pneg (A := AF) p) (pneg (A := AZ) zs) /\
+  (Forall (fun c : Z => (Z.abs c < 2 ^ 53)%Z) (pscale (A := AZ) zs sz) -> Forall2 ExactW (pscale (A := AF) p s) (pscale (A := AZ) zs sz)) /\
+  (pmul_fits zs ws -> Forall2 Exact (pmul (A := AF) p q) (pmul (A := AZ) zs ws)) /\
+  (forall dz, pderiv (A := AZ) zs = Ok dz -> Forall (fun c : Z => (Z.abs c < 2 ^ 53)%Z) dz ->
+     exists d, pderiv (A := AF) p = Ok d /\ Forall2 Exact d dz) /\
+  (forall n dz, pderiv_n (A := AZ) zs n = Ok dz ->
+     (forall k dk, (1 <= k <= n)%nat -> pderiv_n (A := AZ) zs k = Ok dk -> Forall (fun c : Z => (Z.abs c < 2 ^ 53)%Z) dk) ->
+     exists d, pderiv_n (A := AF) p n = Ok d /\ Forall2 ExactW d dz).
+Proof. intros p q zs ws s sz Hp Hq Hs.
+  exact (Logic.conj (padd_exact_float_lemma p q zs ws Hp Hq) (Logic.conj (psub_exact_float_lemma p q zs ws Hp Hq)
+        (Logic.conj (pneg_exact_float_lemma p zs Hp) (Logic.conj (pscale_exact_float_lemma p zs Hp s sz Hs)
+        (Logic.conj (pmul_exact_float_lemma p q zs ws Hp Hq) (Logic.conj (pderiv_exact_float_lemma p zs Hp)
+        (pderiv_n_exact_float_lemma p zs Hp))))))). Qed.
+Check poly_ops_exact_float : forall (p q : list PrimFloat.float) (zs ws : list Z) (s : PrimFloat.float) (sz : Z),
+  Forall2 ExactW p zs -> Forall2 ExactW q ws -> ExactW s sz ->
+  (Forall (fun c : Z => (Z.abs c < 2 ^ 53)%Z) (padd (A := AZ) zs ws) -> Forall2 ExactW (padd (A := AF) p q) (padd (A := AZ) zs ws)) /\
+  (Forall (fun c : Z => (Z.abs c < 2 ^ 53)%Z) (psub (A := AZ) zs ws) -> Forall2 ExactW (psub (A := AF) p q) (psub (A := AZ) zs ws)) /\
+  Forall2 ExactW (pneg (A := AF) p) (pneg (A := AZ) zs) /\
+  (Forall (fun c : Z => (Z.abs c < 2 ^ 53)%Z) (pscale (A := AZ) zs sz) -> Forall2 ExactW (pscale (A := AF) p s) (pscale (A := AZ) zs sz)) /\
+  (pmul_fits zs ws -> Forall2 Exact (pmul (A := AF) p q) (pmul (A := AZ) zs ws)) /\
+  (forall dz, pderiv (A := AZ) zs = Ok dz -> Forall (fun c : Z => (Z.abs c < 2 ^ 53)%Z) dz ->
+     exists d, pderiv (A := AF) p = Ok d /\ Forall2 Exact d dz) /\
+  (forall n dz, pderiv_n (A := AZ) zs n = Ok dz ->
+     (forall k dk, (1 <= k <= n)%nat -> pderiv_n (A := AZ) zs k = Ok dk -> Forall (fun c : Z => (Z.abs c < 2 ^ 53)%Z) dk) ->
+     exists d, pderiv_n (A := AF) p n = Ok d /\ Forall2 ExactW d dz).
+Print Assumptions poly_ops_exact_float.
+(* p = 3 - 2x + 5x^3 (degree 3), q = -7 + 4x + x^2 + 2x^4 (degree 4), s = -6 *)
+Example poly_ops_exact_float_nonvacuous :
+  Forall2 ExactW exP exPz /\ Forall2 ExactW exQ exQz /\ ExactW (-6)%float (-6)%Z /\
+  Forall (fun c : Z => (Z.abs c < 2 ^ 53)%Z) (padd (A := AZ) exPz exQz) /\ Forall (fun c : Z => (Z.abs c < 2 ^ 53)%Z) (psub (A := AZ) exPz exQz) /\
+  Forall (fun c : Z => (Z.abs c < 2 ^ 53)%Z) (pscale (A := AZ) exPz (-6)%Z) /\ pmul_fits exPz exQz /\
+  (exists dz, pderiv_n (A := AZ) exPz 2 = Ok dz /\ dz = [0; 30]%Z) /\
+  pmul (A := AF) exP exQ = [-21; 26; -5; -37; 26; 1; 0; 10]%float /\
+  pmul (A := AZ) exPz exQz = [-21; 26; -5; -37; 26; 1; 0; 10]%Z /\
+  pderiv_n (A := AF) exP 2 = Ok [0; 30]%float.
+Proof.
+  split; [exact exP_exactW|]. split; [exact exQ_exactW|]. split; [exact ex_s_exact|].
+  split; [fits|]. split; [fits|]. split; [fits|]. split; [unfold pmul_fits; fits|].
+  split; [eexists; split; vm_compute; reflexivity|]. repeat split; vm_compute; reflexivity.
+Qed.
+(* outside the bound: 2^53 and 1 are floats, their integer sum 2^53 + 1 is not, and the float sum is 2^53 *)
+Example poly_ops_exact_float_refuted :
+  padd (A := AF) [9007199254740992%float] [1%float] = [9007199254740992%float] /\
+  padd (A := AZ) [2 ^ 53]%Z [1]%Z = [2 ^ 53 + 1]%Z /\ ~ Forall2 ExactW [9007199254740992%float] [2 ^ 53 + 1]%Z.
+Proof. exact padd_beyond_refuted. Qed.
+
+(* the same with the size conditions in terms of the INPUTS: |a_i| <= al, |b_j| <= be.
+   sum/difference: al + be; scalar multiple: al |s|; product: len p * al * be; derivative: (len p - 1) * al;
+   Horner at the integer point x: al (1 + |x| + ... + |x|^(len p - 1))  -- each below 2^53 *)
+Theorem poly_exact_float_input_bounds : forall (p q : list PrimFloat.float) (zs ws : list Z) (s x : PrimFloat.float) (sz xz al be : Z),
+  Forall2 ExactW p zs -> Forall2 ExactW q ws -> ExactW s sz -> ExactW x xz ->
+  (0 <= al)%Z -> (0 <= be)%Z ->
+  Forall (fun a : Z => (Z.abs a <= al)%Z) zs -> Forall (fun b : Z => (Z.abs b <= be)%Z) ws ->
+  ((al + be < 2 ^ 53)%Z ->
+     Forall2 ExactW (padd (A := AF) p q) (padd (A := AZ) zs ws) /\
+     Forall2 ExactW (psub (A := AF) p q) (psub (A := AZ) zs ws)) /\
+  Forall2 ExactW (pneg (A := AF) p) (pneg (A := AZ) zs) /\
+  ((al * Z.abs sz < 2 ^ 53)%Z -> Forall2 ExactW (pscale (A := AF) p s) (pscale (A := AZ) zs sz)) /\
+  ((Z.of_nat (length zs) * (al * be) < 2 ^ 53)%Z -> Forall2 Exact (pmul (A := AF) p q) (pmul (A := AZ) zs ws)) /\
+  ((Z.of_nat (length zs - 1) * al < 2 ^ 53)%Z -> forall dz, pderiv (A := AZ) zs = Ok dz ->
+     exists d, pderiv (A := AF) p = Ok d /\ Forall2 Exact d dz) /\
+  ((al * geom (length zs) (Z.abs xz) < 2 ^ 53)%Z -> p <> [] ->
+     exists r, peval (A := AF) p x = Ok r /\ ExactW r (horner (A := AZ) zs xz)).
+Proof. exact poly_exact_float_bounds_lemma. Qed.
+Check poly_exact_float_input_bounds : forall (p q : list PrimFloat.float) (zs ws : list Z) (s x : PrimFloat.float) (sz xz al be : Z),
+  Forall2 ExactW p zs -> Forall2 ExactW q ws -> ExactW s sz -> ExactW x xz ->
+  (0 <= al)%Z -> (0 <= be)%Z ->
+  Forall (fun a : Z => (Z.abs a <= al)%Z) zs -> Forall (fun b : Z => (Z.abs b <= be)%Z) ws ->
+  ((al + be < 2 ^ 53)%Z ->
+     Forall2 ExactW (padd (A := AF) p q) (padd (A := AZ) zs ws) /\
+     Forall2 ExactW (psub (A := AF) p q) (psub (A := AZ) zs ws)) /\
+  Forall2 ExactW (pneg (A := AF) p) (pneg (A := AZ) zs) /\
+  ((al * Z.abs sz < 2 ^ 53)%Z -> Forall2 ExactW (pscale (A := AF) p s) (pscale (A := AZ) zs sz)) /\
+  ((Z.of_nat (length zs) * (al * be) < 2 ^ 53)%Z -> Forall2 Exact (pmul (A := AF) p q) (pmul (A := AZ) zs ws)) /\
+  ((Z.of_nat (length zs - 1) * al < 2 ^ 53)%Z -> forall dz, pderiv (A := AZ) zs = Ok dz ->
+     exists d, pderiv (A := AF) p = Ok d /\ Forall2 Exact d dz) /\
+  ((al * geom (length zs) (Z.abs xz) < 2 ^ 53)%Z -> p <> [] ->
+     exists r, peval (A := AF) p x = Ok r /\ ExactW r (horner (A := AZ) zs xz)).
+Print Assumptions poly_exact_float_input_bounds.
+Example poly_exact_float_input_bounds_nonvacuous :
+  Forall2 ExactW exP exPz /\ Forall2 ExactW exQ exQz /\ ExactW (-6)%float (-6)%Z /\ ExactW 3%float 3%Z /\
+  (0 <= 5)%Z /\ (0 <= 7)%Z /\
+  Forall (fun a : Z => (Z.abs a <= 5)%Z) exPz /\ Forall (fun b : Z => (Z.abs b <= 7)%Z) exQz /\
+  (5 + 7 < 2 ^ 53)%Z /\ (5 * Z.abs (-6) < 2 ^ 53)%Z /\ (Z.of_nat (length exPz) * (5 * 7) < 2 ^ 53)%Z /\
+  (Z.of_nat (length exPz - 1) * 5 < 2 ^ 53)%Z /\ (5 * geom (length exPz) (Z.abs 3) < 2 ^ 53)%Z /\ exP <> [].
+Proof.
+  split; [exact exP_exactW|]. split; [exact exQ_exactW|]. split; [exact ex_s_exact|]. split; [exact ex_x_exact|].
+  split; [lia|]. split; [lia|]. split; [repeat constructor; cbn; lia|]. split; [repeat constructor; cbn; lia|].
+  repeat split; try (vm_compute; reflexivity). discriminate.
+Qed.
+
+(* Horner at an integer point with sum_i |a_i| |x|^i < 2^53 is exact: no step rounds; the result is the float image of the
+   integer value (and not a negative zero when no coefficient is one) *)
+Theorem peval_exact_float : forall (p : list PrimFloat.float) (zs : list Z) (x : PrimFloat.float) (xz : Z),
+  Forall2 ExactW p zs -> ExactW x xz -> p <> [] -> eval_fits zs xz ->
+  exists r, peval (A := AF) p x = Ok r /\ ExactW r (horner (A := AZ) zs xz) /\
+            (Z.abs (horner (A := AZ) zs xz) <= horner (A := AZ) (map Z.abs zs) (Z.abs xz))%Z /\
+            (Forall2 Exact p zs -> Exact r (horner (A := AZ) zs xz)).
+Proof. exact peval_exact_float_lemma. Qed.
+Check peval_exact_float : forall (p : list PrimFloat.float) (zs : list Z) (x : PrimFloat.float) (xz : Z),
+  Forall2 ExactW p zs -> ExactW x xz -> p <> [] -> eval_fits zs xz ->
+  exists r, peval (A := AF) p x = Ok r /\ ExactW r (horner (A := AZ) zs xz) /\
+            (Z.abs (horner (A := AZ) zs xz) <= horner (A := AZ) (map Z.abs zs) (Z.abs xz))%Z /\
+            (Forall2 Exact p zs -> Exact r (horner (A := AZ) zs xz)).
+Print Assumptions peval_exact_float.
+Example peval_exact_float_nonvacuous :   (* 3 - 2x + 5x^3 at x = 3: 132 *)
+  Forall2 ExactW exP exPz /\ ExactW 3%float 3%Z /\ exP <> [] /\ eval_fits exPz 3%Z /\
+  peval (A := AF) exP 3%float = Ok 132%float /\ horner (A := AZ) exPz 3%Z = 132%Z.
+Proof.
+  split; [exact exP_exactW|]. split; [exact ex_x_exact|]. split; [discriminate|].
+  split; [unfold eval_fits; vm_compute; reflexivity|]. split; vm_compute; reflexivity.
+Qed.
+
+(* the homomorphism law of evaluation for the sum, BIT FOR BIT: eval (p + q) x = eval p x + eval q x as floats,
+   for integer-valued coefficients none of which is a negative zero, under the bounds (coefficients of p + q, and the three
+   Horner sums sum_i |c_i| |x|^i, below 2^53) *)
+Theorem peval_padd_exact_float : forall (p q : list PrimFloat.float) (zs ws : list Z) (x : PrimFloat.float) (xz : Z),
+  Forall2 Exact p zs -> Forall2 Exact q ws -> ExactW x xz -> p <> [] -> q <> [] ->
+  Forall (fun c : Z => (Z.abs c < 2 ^ 53)%Z) (padd (A := AZ) zs ws) ->
+  eval_fits zs xz -> eval_fits ws xz -> eval_fits (padd (A := AZ) zs ws) xz ->
+  exists rp rq, peval (A := AF) p x = Ok rp /\ peval (A := AF) q x = Ok rq /\
+    peval (A := AF) (padd (A := AF) p q) x = Ok (rp + rq)%float /\
+    Exact rp (horner (A := AZ) zs xz) /\ Exact rq (horner (A := AZ) ws xz) /\
+    Exact (rp + rq)%float (horner (A := AZ) zs xz + horner (A := AZ) ws xz)%Z.
+Proof. exact peval_padd_exact_float_lemma. Qed.
+Check peval_padd_exact_float : forall (p q : list PrimFloat.float) (zs ws : list Z) (x : PrimFloat.float) (xz : Z),
+  Forall2 Exact p zs -> Forall2 Exact q ws -> ExactW x xz -> p <> [] -> q <> [] ->
+  Forall (fun c : Z => (Z.abs c < 2 ^ 53)%Z) (padd (A := AZ) zs ws) ->
+  eval_fits zs xz -> eval_fits ws xz -> eval_fits (padd (A := AZ) zs ws) xz ->
+  exists rp rq, peval (A := AF) p x = Ok rp /\ peval (A := AF) q x = Ok rq /\
+    peval (A := AF) (padd (A := AF) p q) x = Ok (rp + rq)%float /\
+    Exact rp (horner (A := AZ) zs xz) /\ Exact rq (horner (A := AZ) ws xz) /\
+    Exact (rp + rq)%float (horner (A := AZ) zs xz + horner (A := AZ) ws xz)%Z.
+Print Assumptions peval_padd_exact_float.
+Example peval_padd_exact_float_nonvacuous :
+  Forall2 Exact exP exPz /\ Forall2 Exact exQ exQz /\ ExactW 3%float 3%Z /\ exP <> [] /\ exQ <> [] /\
+  Forall (fun c : Z => (Z.abs c < 2 ^ 53)%Z) (padd (A := AZ) exPz exQz) /\
+  eval_fits exPz 3%Z /\ eval_fits exQz 3%Z /\ eval_fits (padd (A := AZ) exPz exQz) 3%Z.
+Proof.
+  split; [exact exP_exact|]. split; [exact exQ_exact|]. split; [exact ex_x_exact|]. split; [discriminate|].
+  split; [discriminate|]. split; [fits|]. repeat split; unfold eval_fits; vm_compute; reflexivity.
+Qed.
+(* outside the bound the law FAILS: p = 1 + (2^52+1) x, q = 2, x = 2 -- every coefficient is a float, but
+   p(2) + q(2) = 2^53 + 5 is not: eval (p + q) 2 = 2^53 + 4, eval p 2 + eval q 2 = 2^53 + 6.
+   And with negative-zero coefficients it fails in the sign: p = q = -0 gives +0 on the left, -0 on the right *)
+Example peval_padd_exact_float_refuted :
+  (let p := [1; 4503599627370497]%float in let q := [2; 0]%float in
+   Forall2 Exact p [1; 2 ^ 52 + 1]%Z /\ Forall2 Exact q [2; 0]%Z /\
+   peval (A := AF) (padd (A := AF) p q) 2%float = Ok 9007199254740996%float /\
+   peval (A := AF) p 2%float = Ok 9007199254740996%float /\ peval (A := AF) q 2%float = Ok 2%float /\
+   (9007199254740996 + 2)%float = 9007199254740998%float /\
+   ~ eval_fits (padd (A := AZ) [1; 2 ^ 52 + 1]%Z [2; 0]%Z) 2%Z) /\
+  (exists r rp rq, peval (A := AF) (padd (A := AF) [-0]%float [-0]%float) 1%float = Ok r /\
+    peval (A := AF) [-0]%float 1%float = Ok rp /\ peval (A := AF) [-0]%float 1%float = Ok rq /\
+    is_pos_zero r /\ is_neg_zero (rp + rq)%float /\ ExactW (-0)%float 0%Z /\ ~ Exact (-0)%float 0%Z).
+Proof. exact (Logic.conj peval_padd_beyond_refuted peval_padd_negzero_refuted). Qed.
+
+(* the homomorphism law of evaluation for the difference, BIT FOR BIT: eval (p - q) x = eval p x - eval q x as floats,
+   for integer-valued coefficients none of which is a negative zero, under the bounds (coefficients of p - q, and the three
+   Horner sums sum_i |c_i| |x|^i, below 2^53) *)
+Theorem peval_psub_exact_float : forall (p q : list PrimFloat.float) (zs ws : list Z) (x : PrimFloat.float) (xz : Z),
+  Forall2 Exact p zs -> Forall2 Exact q ws -> ExactW x xz -> p <> [] -> q <> [] ->
+  Forall (fun c : Z => (Z.abs c < 2 ^ 53)%Z) (psub (A := AZ) zs ws) ->
+  eval_fits zs xz -> eval_fits ws xz -> eval_fits (psub (A := AZ) zs ws) xz ->
+  exists rp rq, peval (A := AF) p x = Ok rp /\ peval (A := AF) q x = Ok rq /\
+    peval (A := AF) (psub (A := AF) p q) x = Ok (rp - rq)%float /\
+    Exact rp (horner (A := AZ) zs xz) /\ Exact rq (horner (A := AZ) ws xz) /\
+    Exact (rp - rq)%float (horner (A := AZ) zs xz - horner (A := AZ) ws xz)%Z.
+Proof. exact peval_psub_exact_float_lemma. Qed.
+Check peval_psub_exact_float : forall (p q : list PrimFloat.float) (zs ws : list Z) (x : PrimFloat.float) (xz : Z),
+  Forall2 Exact p zs -> Forall2 Exact q ws -> ExactW x xz -> p <> [] -> q <> [] ->
+  Forall (fun c : Z => (Z.abs c < 2 ^ 53)%Z) (psub (A := AZ) zs ws) ->
+  eval_fits zs xz -> eval_fits ws xz -> eval_fits (psub (A := AZ) zs ws) xz ->
+  exists rp rq, peval (A := AF) p x = Ok rp /\ peval (A := AF) q x = Ok rq /\
+    peval (A := AF) (psub (A := AF) p q) x = Ok (rp - rq)%float /\
+    Exact rp (horner (A := AZ) zs xz) /\ Exact rq (horner (A := AZ) ws xz) /\
+    Exact (rp - rq)%float (horner (A := AZ) zs xz - horner (A := AZ) ws xz)%Z.
+Print Assumptions peval_psub_exact_float.
+Example peval_psub_exact_float_nonvacuous :
+  Forall2 Exact exP exPz /\ Forall2 Exact exQ exQz /\ ExactW 3%float 3%Z /\ exP <> [] /\ exQ <> [] /\
+  Forall (fun c : Z => (Z.abs c < 2 ^ 53)%Z) (psub (A := AZ) exPz exQz) /\
+  eval_fits exPz 3%Z /\ eval_fits exQz 3%Z /\ eval_fits (psub (A := AZ) exPz exQz) 3%Z.
+Proof.
+  split; [exact exP_exact|]. split; [exact exQ_exact|]. split; [exact ex_x_exact|]. split; [discriminate|].
+  split; [discriminate|]. split; [fits|]. repeat split; unfold eval_fits; vm_compute; reflexivity.
+Qed.
+
+(* eval (p * q) x and eval p x * eval q x hold the SAME integer (and are == ; identical bits unless that integer is 0:
+   a product of values can be -0 where the product polynomial evaluates to +0) *)
+Theorem peval_pmul_exact_float : forall (p q : list PrimFloat.float) (zs ws : list Z) (x : PrimFloat.float) (xz : Z),
+  Forall2 ExactW p zs -> Forall2 ExactW q ws -> ExactW x xz -> p <> [] -> q <> [] ->
+  pmul_fits zs ws -> eval_fits zs xz -> eval_fits ws xz -> eval_fits (pmul (A := AZ) zs ws) xz ->
+  (horner (A := AZ) (map Z.abs zs) (Z.abs xz) * horner (A := AZ) (map Z.abs ws) (Z.abs xz) < 2 ^ 53)%Z ->
+  exists rp rq r, peval (A := AF) p x = Ok rp /\ peval (A := AF) q x = Ok rq /\
+    peval (A := AF) (pmul (A := AF) p q) x = Ok r /\
+    same_value r (rp * rq)%float (horner (A := AZ) zs xz * horner (A := AZ) ws xz)%Z.
+Proof. exact peval_pmul_exact_float_lemma. Qed.
+Check peval_pmul_exact_float : forall (p q : list PrimFloat.float) (zs ws : list Z) (x : PrimFloat.float) (xz : Z),
+  Forall2 ExactW p zs -> Forall2 ExactW q ws -> ExactW x xz -> p <> [] -> q <> [] ->
+  pmul_fits zs ws -> eval_fits zs xz -> eval_fits ws xz -> eval_fits (pmul (A := AZ) zs ws) xz ->
+  (horner (A := AZ) (map Z.abs zs) (Z.abs xz) * horner (A := AZ) (map Z.abs ws) (Z.abs xz) < 2 ^ 53)%Z ->
+  exists rp rq r, peval (A := AF) p x = Ok rp /\ peval (A := AF) q x = Ok rq /\
+    peval (A := AF) (pmul (A := AF) p q) x = Ok r /\
+    same_value r (rp * rq)%float (horner (A := AZ) zs xz * horner (A := AZ) ws xz)%Z.
+Print Assumptions peval_pmul_exact_float.
+Example peval_pmul_exact_float_nonvacuous :
+  Forall2 ExactW exP exPz /\ Forall2 ExactW exQ exQz /\ ExactW 3%float 3%Z /\ exP <> [] /\ exQ <> [] /\
+  pmul_fits exPz exQz /\ eval_fits exPz 3%Z /\ eval_fits exQz 3%Z /\ eval_fits (pmul (A := AZ) exPz exQz) 3%Z /\
+  (horner (A := AZ) (map Z.abs exPz) (Z.abs 3) * horner (A := AZ) (map Z.abs exQz) (Z.abs 3) < 2 ^ 53)%Z.
+Proof.
+  split; [exact exP_exactW|]. split; [exact exQ_exactW|]. split; [exact ex_x_exact|]. split; [discriminate|].
+  split; [discriminate|]. split; [unfold pmul_fits; fits|]. repeat split; unfold eval_fits; vm_compute; reflexivity.
+Qed.
+(* the sign of a zero: p = 0, q = -3: eval (p*q) 1 = +0, eval p 1 * eval q 1 = -0 *)
+Example peval_pmul_exact_float_refuted :
+  exists r rp rq, peval (A := AF) (pmul (A := AF) [0]%float [-3]%float) 1%float = Ok r /\
+    peval (A := AF) [0]%float 1%float = Ok rp /\ peval (A := AF) [-3]%float 1%float = Ok rq /\
+    is_pos_zero r /\ is_neg_zero (rp * rq)%float.
+Proof. exact peval_pmul_sign_refuted. Qed.
+
+(* eval (-p) x and -(eval p x) hold the same integer (== ; identical unless it is 0) *)
+Theorem peval_pneg_exact_float : forall (p : list PrimFloat.float) (zs : list Z) (x : PrimFloat.float) (xz : Z),
+  Forall2 ExactW p zs -> ExactW x xz -> p <> [] -> eval_fits zs xz ->
+  exists rp r, peval (A := AF) p x = Ok rp /\ peval (A := AF) (pneg (A := AF) p) x = Ok r /\
+    same_value r (- rp)%float (- horner (A := AZ) zs xz)%Z.
+Proof. exact peval_pneg_exact_float_lemma. Qed.
+Check peval_pneg_exact_float : forall (p : list PrimFloat.float) (zs : list Z) (x : PrimFloat.float) (xz : Z),
+  Forall2 ExactW p zs -> ExactW x xz -> p <> [] -> eval_fits zs xz ->
+  exists rp r, peval (A := AF) p x = Ok rp /\ peval (A := AF) (pneg (A := AF) p) x = Ok r /\
+    same_value r (- rp)%float (- horner (A := AZ) zs xz)%Z.
+Print Assumptions peval_pneg_exact_float.
+Example peval_pneg_exact_float_nonvacuous :
+  Forall2 ExactW exP exPz /\ ExactW 3%float 3%Z /\ exP <> [] /\ eval_fits exPz 3%Z.
+Proof.
+  split; [exact exP_exactW|]. split; [exact ex_x_exact|]. split; [discriminate|]. unfold eval_fits; vm_compute; reflexivity.
+Qed.
+(* p = 1 - x at x = 1: eval (-p) 1 = +0 but -(eval p 1) = -0 *)
+Example peval_pneg_exact_float_refuted :
+  exists r rp, peval (A := AF) (pneg (A := AF) [1; -1]%float) 1%float = Ok r /\
+    peval (A := AF) [1; -1]%float 1%float = Ok rp /\ is_pos_zero r /\ is_neg_zero (- rp)%float.
+Proof. exact peval_pneg_sign_refuted. Qed.
+
+(* eval (s p) x and (eval p x) * s hold the same integer (== ; identical unless it is 0) *)
+Theorem peval_pscale_exact_float : forall (p : list PrimFloat.float) (zs : list Z) (x : PrimFloat.float) (xz : Z) (s : PrimFloat.float) (sz : Z),
+  Forall2 ExactW p zs -> ExactW x xz -> ExactW s sz -> p <> [] ->
+  Forall (fun c : Z => (Z.abs c < 2 ^ 53)%Z) (pscale (A := AZ) zs sz) -> eval_fits zs xz -> eval_fits (pscale (A := AZ) zs sz) xz ->
+  (horner (A := AZ) (map Z.abs zs) (Z.abs xz) * Z.abs sz < 2 ^ 53)%Z ->
+  exists rp r, peval (A := AF) p x = Ok rp /\ peval (A := AF) (pscale (A := AF) p s) x = Ok r /\
+    same_value r (rp * s)%float (horner (A := AZ) zs xz * sz)%Z.
+Proof. exact peval_pscale_exact_float_lemma. Qed.
+Check peval_pscale_exact_float : forall (p : list PrimFloat.float) (zs : list Z) (x : PrimFloat.float) (xz : Z) (s : PrimFloat.float) (sz : Z),
+  Forall2 ExactW p zs -> ExactW x xz -> ExactW s sz -> p <> [] ->
+  Forall (fun c : Z => (Z.abs c < 2 ^ 53)%Z) (pscale (A := AZ) zs sz) -> eval_fits zs xz -> eval_fits (pscale (A := AZ) zs sz) xz ->
+  (horner (A := AZ) (map Z.abs zs) (Z.abs xz) * Z.abs sz < 2 ^ 53)%Z ->
+  exists rp r, peval (A := AF) p x = Ok rp /\ peval (A := AF) (pscale (A := AF) p s) x = Ok r /\
+    same_value r (rp * s)%float (horner (A := AZ) zs xz * sz)%Z.
+Print Assumptions peval_pscale_exact_float.
+Example peval_pscale_exact_float_nonvacuous :
+  Forall2 ExactW exP exPz /\ ExactW 3%float 3%Z /\ ExactW (-6)%float (-6)%Z /\ exP <> [] /\
+  Forall (fun c : Z => (Z.abs c < 2 ^ 53)%Z) (pscale (A := AZ) exPz (-6)%Z) /\ eval_fits exPz 3%Z /\
+  eval_fits (pscale (A := AZ) exPz (-6)%Z) 3%Z /\
+  (horner (A := AZ) (map Z.abs exPz) (Z.abs 3) * Z.abs (-6) < 2 ^ 53)%Z.
+Proof.
+  split; [exact exP_exactW|]. split; [exact ex_x_exact|]. split; [exact ex_s_exact|]. split; [discriminate|].
+  split; [fits|]. repeat split; unfold eval_fits; vm_compute; reflexivity.
+Qed.
+
+(* differentiation is linear, BIT FOR BIT, for ANY integer-valued operands (negative zeros included: every coefficient of a
+   derivative and of a sum of two non-empty operands is accumulated from +0), when the sums and both derivatives fit *)
+Theorem pderiv_padd_exact_float : forall (p q : list PrimFloat.float) (zs ws dzs dws : list Z),
+  Forall2 ExactW p zs -> Forall2 ExactW q ws ->
+  pderiv (A := AZ) zs = Ok dzs -> pderiv (A := AZ) ws = Ok dws ->
+  Forall (fun c : Z => (Z.abs c < 2 ^ 53)%Z) (padd (A := AZ) zs ws) -> Forall (fun c : Z => (Z.abs c < 2 ^ 53)%Z) dzs -> Forall (fun c : Z => (Z.abs c < 2 ^ 53)%Z) dws ->
+  Forall (fun c : Z => (Z.abs c < 2 ^ 53)%Z) (padd (A := AZ) dzs dws) ->
+  exists dp dq, pderiv (A := AF) p = Ok dp /\ pderiv (A := AF) q = Ok dq /\
+    pderiv (A := AF) (padd (A := AF) p q) = Ok (padd (A := AF) dp dq) /\
+    Forall2 Exact (padd (A := AF) dp dq) (padd (A := AZ) dzs dws).
+Proof. exact pderiv_padd_exact_float_lemma. Qed.
+Check pderiv_padd_exact_float : forall (p q : list PrimFloat.float) (zs ws dzs dws : list Z),
+  Forall2 ExactW p zs -> Forall2 ExactW q ws ->
+  pderiv (A := AZ) zs = Ok dzs -> pderiv (A := AZ) ws = Ok dws ->
+  Forall (fun c : Z => (Z.abs c < 2 ^ 53)%Z) (padd (A := AZ) zs ws) -> Forall (fun c : Z => (Z.abs c < 2 ^ 53)%Z) dzs -> Forall (fun c : Z => (Z.abs c < 2 ^ 53)%Z) dws ->
+  Forall (fun c : Z => (Z.abs c < 2 ^ 53)%Z) (padd (A := AZ) dzs dws) ->
+  exists dp dq, pderiv (A := AF) p = Ok dp /\ pderiv (A := AF) q = Ok dq /\
+    pderiv (A := AF) (padd (A := AF) p q) = Ok (padd (A := AF) dp dq) /\
+    Forall2 Exact (padd (A := AF) dp dq) (padd (A := AZ) dzs dws).
+Print Assumptions pderiv_padd_exact_float.
+Example pderiv_padd_exact_float_nonvacuous :
+  Forall2 ExactW exP exPz /\ Forall2 ExactW exQ exQz /\
+  pderiv (A := AZ) exPz = Ok [-2; 0; 15]%Z /\ pderiv (A := AZ) exQz = Ok [4; 2; 0; 8]%Z /\
+  Forall (fun c : Z => (Z.abs c < 2 ^ 53)%Z) (padd (A := AZ) exPz exQz) /\ Forall (fun c : Z => (Z.abs c < 2 ^ 53)%Z) [-2; 0; 15]%Z /\ Forall (fun c : Z => (Z.abs c < 2 ^ 53)%Z) [4; 2; 0; 8]%Z /\
+  Forall (fun c : Z => (Z.abs c < 2 ^ 53)%Z) (padd (A := AZ) [-2; 0; 15]%Z [4; 2; 0; 8]%Z).
+Proof.
+  split; [exact exP_exactW|]. split; [exact exQ_exactW|]. split; [vm_compute; reflexivity|]. split; [vm_compute; reflexivity|].
+  repeat split; fits.
+Qed.
+
+(* the product rule (p q)' = p' q + p q', BIT FOR BIT, for any integer-valued operands, when the three products, the two derivatives and the final sum fit *)
+Theorem pderiv_pmul_exact_float : forall (p q : list PrimFloat.float) (zs ws dzs dws : list Z),
+  Forall2 ExactW p zs -> Forall2 ExactW q ws ->
+  pderiv (A := AZ) zs = Ok dzs -> pderiv (A := AZ) ws = Ok dws ->
+  pmul_fits zs ws -> Forall (fun c : Z => (Z.abs c < 2 ^ 53)%Z) dzs -> Forall (fun c : Z => (Z.abs c < 2 ^ 53)%Z) dws -> pmul_fits dzs ws -> pmul_fits zs dws ->
+  Forall (fun c : Z => (Z.abs c < 2 ^ 53)%Z) (padd (A := AZ) (pmul (A := AZ) dzs ws) (pmul (A := AZ) zs dws)) ->
+  exists dp dq, pderiv (A := AF) p = Ok dp /\ pderiv (A := AF) q = Ok dq /\
+    pderiv (A := AF) (pmul (A := AF) p q) = Ok (padd (A := AF) (pmul (A := AF) dp q) (pmul (A := AF) p dq)) /\
+    Forall2 Exact (padd (A := AF) (pmul (A := AF) dp q) (pmul (A := AF) p dq))
+                  (padd (A := AZ) (pmul (A := AZ) dzs ws) (pmul (A := AZ) zs dws)).
+Proof. exact pderiv_pmul_exact_float_lemma. Qed.
+Check pderiv_pmul_exact_float : forall (p q : list PrimFloat.float) (zs ws dzs dws : list Z),
+  Forall2 ExactW p zs -> Forall2 ExactW q ws ->
+  pderiv (A := AZ) zs = Ok dzs -> pderiv (A := AZ) ws = Ok dws ->
+  pmul_fits zs ws -> Forall (fun c : Z => (Z.abs c < 2 ^ 53)%Z) dzs -> Forall (fun c : Z => (Z.abs c < 2 ^ 53)%Z) dws -> pmul_fits dzs ws -> pmul_fits zs dws ->
+  Forall (fun c : Z => (Z.abs c < 2 ^ 53)%Z) (padd (A := AZ) (pmul (A := AZ) dzs ws) (pmul (A := AZ) zs dws)) ->
+  exists dp dq, pderiv (A := AF) p = Ok dp /\ pderiv (A := AF) q = Ok dq /\
+    pderiv (A := AF) (pmul (A := AF) p q) = Ok (padd (A := AF) (pmul (A := AF) dp q) (pmul (A := AF) p dq)) /\
+    Forall2 Exact (padd (A := AF) (pmul (A := AF) dp q) (pmul (A := AF) p dq))
+                  (padd (A := AZ) (pmul (A := AZ) dzs ws) (pmul (A := AZ) zs dws)).
+Print Assumptions pderiv_pmul_exact_float.
+Example pderiv_pmul_exact_float_nonvacuous :
+  Forall2 ExactW exP exPz /\ Forall2 ExactW exQ exQz /\
+  pderiv (A := AZ) exPz = Ok [-2; 0; 15]%Z /\ pderiv (A := AZ) exQz = Ok [4; 2; 0; 8]%Z /\
+  pmul_fits exPz exQz /\ Forall (fun c : Z => (Z.abs c < 2 ^ 53)%Z) [-2; 0; 15]%Z /\ Forall (fun c : Z => (Z.abs c < 2 ^ 53)%Z) [4; 2; 0; 8]%Z /\
+  pmul_fits [-2; 0; 15]%Z exQz /\ pmul_fits exPz [4; 2; 0; 8]%Z /\
+  Forall (fun c : Z => (Z.abs c < 2 ^ 53)%Z) (padd (A := AZ) (pmul (A := AZ) [-2; 0; 15]%Z exQz) (pmul (A := AZ) exPz [4; 2; 0; 8]%Z)).
+Proof.
+  split; [exact exP_exactW|]. split; [exact exQ_exactW|]. split; [vm_compute; reflexivity|]. split; [vm_compute; reflexivity|].
+  repeat split; unfold pmul_fits; fits.
+Qed.
+
+(* (s p)' and s p' hold the same integers coefficient by coefficient (a zero coefficient may differ in sign) *)
+Theorem pderiv_pscale_exact_float : forall (p : list PrimFloat.float) (zs dzs : list Z) (s : PrimFloat.float) (sz : Z),
+  Forall2 ExactW p zs -> ExactW s sz -> pderiv (A := AZ) zs = Ok dzs ->
+  Forall (fun c : Z => (Z.abs c < 2 ^ 53)%Z) (pscale (A := AZ) zs sz) -> Forall (fun c : Z => (Z.abs c < 2 ^ 53)%Z) dzs -> Forall (fun c : Z => (Z.abs c < 2 ^ 53)%Z) (pscale (A := AZ) dzs sz) ->
+  exists dp d, pderiv (A := AF) p = Ok dp /\ pderiv (A := AF) (pscale (A := AF) p s) = Ok d /\
+    Forall2 ExactW d (pscale (A := AZ) dzs sz) /\ Forall2 ExactW (pscale (A := AF) dp s) (pscale (A := AZ) dzs sz).
+Proof. exact pderiv_pscale_exact_float_lemma. Qed.
+Check pderiv_pscale_exact_float : forall (p : list PrimFloat.float) (zs dzs : list Z) (s : PrimFloat.float) (sz : Z),
+  Forall2 ExactW p zs -> ExactW s sz -> pderiv (A := AZ) zs = Ok dzs ->
+  Forall (fun c : Z => (Z.abs c < 2 ^ 53)%Z) (pscale (A := AZ) zs sz) -> Forall (fun c : Z => (Z.abs c < 2 ^ 53)%Z) dzs -> Forall (fun c : Z => (Z.abs c < 2 ^ 53)%Z) (pscale (A := AZ) dzs sz) ->
+  exists dp d, pderiv (A := AF) p = Ok dp /\ pderiv (A := AF) (pscale (A := AF) p s) = Ok d /\
+    Forall2 ExactW d (pscale (A := AZ) dzs sz) /\ Forall2 ExactW (pscale (A := AF) dp s) (pscale (A := AZ) dzs sz).
+Print Assumptions pderiv_pscale_exact_float.
+Example pderiv_pscale_exact_float_nonvacuous :
+  Forall2 ExactW exP exPz /\ ExactW (-6)%float (-6)%Z /\ pderiv (A := AZ) exPz = Ok [-2; 0; 15]%Z /\
+  Forall (fun c : Z => (Z.abs c < 2 ^ 53)%Z) (pscale (A := AZ) exPz (-6)%Z) /\ Forall (fun c : Z => (Z.abs c < 2 ^ 53)%Z) [-2; 0; 15]%Z /\
+  Forall (fun c : Z => (Z.abs c < 2 ^ 53)%Z) (pscale (A := AZ) [-2; 0; 15]%Z (-6)%Z).
+Proof.
+  split; [exact exP_exactW|]. split; [exact ex_s_exact|]. split; [vm_compute; reflexivity|]. repeat split; fits.
+Qed.
+(* p = 0 + 0x, s = -1: (s p)' = [+0] but s p' = [-0] *)
+Example pderiv_pscale_exact_float_refuted :
+  exists d dp, pderiv (A := AF) (pscale (A := AF) [0; 0]%float (-1)%float) = Ok d /\ pderiv (A := AF) [0; 0]%float = Ok dp /\
+    is_pos_zero (nth 0 d 1%float) /\ is_neg_zero (nth 0 (pscale (A := AF) dp (-1)%float) 1%float).
+Proof. exact pderiv_pscale_sign_refuted. Qed.
+
+(* the sum and the difference of two NON-EMPTY integer-valued operands never contain a negative zero (coefficient i is
+   (0 + p_i) + q_i resp. (0 + p_i) - q_i and 0 + (-0) = +0), whatever the signs of the zeros in the operands: the results
+   are the bit patterns determined by the integer results *)
+Theorem padd_psub_no_negative_zero_float : forall (p q : list PrimFloat.float) (zs ws : list Z),
+  Forall2 ExactW p zs -> Forall2 ExactW q ws -> p <> [] -> q <> [] ->
+  (Forall (fun c : Z => (Z.abs c < 2 ^ 53)%Z) (padd (A := AZ) zs ws) -> Forall2 Exact (padd (A := AF) p q) (padd (A := AZ) zs ws)) /\
+  (Forall (fun c : Z => (Z.abs c < 2 ^ 53)%Z) (psub (A := AZ) zs ws) -> Forall2 Exact (psub (A := AF) p q) (psub (A := AZ) zs ws)).
+Proof. exact padd_psub_no_negzero_float_lemma. Qed.
+Check padd_psub_no_negative_zero_float : forall (p q : list PrimFloat.float) (zs ws : list Z),
+  Forall2 ExactW p zs -> Forall2 ExactW q ws -> p <> [] -> q <> [] ->
+  (Forall (fun c : Z => (Z.abs c < 2 ^ 53)%Z) (padd (A := AZ) zs ws) -> Forall2 Exact (padd (A := AF) p q) (padd (A := AZ) zs ws)) /\
+  (Forall (fun c : Z => (Z.abs c < 2 ^ 53)%Z) (psub (A := AZ) zs ws) -> Forall2 Exact (psub (A := AF) p q) (psub (A := AZ) zs ws)).
+Print Assumptions padd_psub_no_negative_zero_float.
+Example padd_psub_no_negative_zero_float_nonvacuous :   (* (-0) + (-0) as constant polynomials is +0 *)
+  Forall2 ExactW [-0]%float [0]%Z /\ [-0]%float <> [] /\ Forall (fun c : Z => (Z.abs c < 2 ^ 53)%Z) (padd (A := AZ) [0]%Z [0]%Z) /\
+  is_pos_zero (nth 0 (padd (A := AF) [-0]%float [-0]%float) 1%float) /\ is_neg_zero (-0)%float.
+Proof.
+  split; [repeat constructor; exactw|]. split; [discriminate|]. split; [fits|]. split; vm_compute; reflexivity.
+Qed.
+
+(* derivative_at: the n-th derivative evaluated at an integer point, when every derivative of order 1..n and the Horner sum fit *)
+Theorem pderiv_at_exact_float : forall (p : list PrimFloat.float) (zs dz : list Z) (x : PrimFloat.float) (xz : Z) (n : nat),
+  Forall2 ExactW p zs -> ExactW x xz -> pderiv_n (A := AZ) zs n = Ok dz -> dz <> [] ->
+  (forall k dk, (1 <= k <= n)%nat -> pderiv_n (A := AZ) zs k = Ok dk -> Forall (fun c : Z => (Z.abs c < 2 ^ 53)%Z) dk) ->
+  eval_fits dz xz ->
+  exists r, pderiv_at (A := AF) p x n = Ok r /\ ExactW r (horner (A := AZ) dz xz) /\
+            pderiv_at (A := AZ) zs xz n = Ok (horner (A := AZ) dz xz).
+Proof. exact pderiv_at_exact_float_lemma. Qed.
+Check pderiv_at_exact_float : forall (p : list PrimFloat.float) (zs dz : list Z) (x : PrimFloat.float) (xz : Z) (n : nat),
+  Forall2 ExactW p zs -> ExactW x xz -> pderiv_n (A := AZ) zs n = Ok dz -> dz <> [] ->
+  (forall k dk, (1 <= k <= n)%nat -> pderiv_n (A := AZ) zs k = Ok dk -> Forall (fun c : Z => (Z.abs c < 2 ^ 53)%Z) dk) ->
+  eval_fits dz xz ->
+  exists r, pderiv_at (A := AF) p x n = Ok r /\ ExactW r (horner (A := AZ) dz xz) /\
+            pderiv_at (A := AZ) zs xz n = Ok (horner (A := AZ) dz xz).
+Print Assumptions pderiv_at_exact_float.
+Example pderiv_at_exact_float_nonvacuous :   (* (3 - 2x + 5x^3)'' = 30x at x = 3: 90 *)
+  Forall2 ExactW exP exPz /\ ExactW 3%float 3%Z /\ pderiv_n (A := AZ) exPz 2 = Ok [0; 30]%Z /\ [0; 30]%Z <> [] /\
+  eval_fits [0; 30]%Z 3%Z /\ pderiv_at (A := AF) exP 3%float 2 = Ok 90%float.
+Proof.
+  split; [exact exP_exactW|]. split; [exact ex_x_exact|]. split; [vm_compute; reflexivity|]. split; [discriminate|].
+  split; [unfold eval_fits; vm_compute; reflexivity|]. vm_compute; reflexivity.
+Qed.
+
+(* both additive evaluation laws, bit for bit, from ONE condition on the inputs:
+   (al + be) (1 + |x| + ... + |x|^(max (len p) (len q) - 1)) < 2^53  with |a_i| <= al, |b_j| <= be *)
+Theorem peval_padd_psub_exact_float_input_bounds : forall (p q : list PrimFloat.float) (zs ws : list Z) (x : PrimFloat.float) (xz al be : Z),
+  Forall2 Exact p zs -> Forall2 Exact q ws -> ExactW x xz -> p <> [] -> q <> [] ->
+  (0 <= al)%Z -> (0 <= be)%Z ->
+  Forall (fun a : Z => (Z.abs a <= al)%Z) zs -> Forall (fun b : Z => (Z.abs b <= be)%Z) ws ->
+  ((al + be) * geom (Nat.max (length zs) (length ws)) (Z.abs xz) < 2 ^ 53)%Z ->
+  exists rp rq, peval (A := AF) p x = Ok rp /\ peval (A := AF) q x = Ok rq /\
+    peval (A := AF) (padd (A := AF) p q) x = Ok (rp + rq)%float /\
+    peval (A := AF) (psub (A := AF) p q) x = Ok (rp - rq)%float /\
+    Exact rp (horner (A := AZ) zs xz) /\ Exact rq (horner (A := AZ) ws xz).
+Proof. exact peval_padd_psub_exact_float_bounds_lemma. Qed.
+Check peval_padd_psub_exact_float_input_bounds : forall (p q : list PrimFloat.float) (zs ws : list Z) (x : PrimFloat.float) (xz al be : Z),
+  Forall2 Exact p zs -> Forall2 Exact q ws -> ExactW x xz -> p <> [] -> q <> [] ->
+  (0 <= al)%Z -> (0 <= be)%Z ->
+  Forall (fun a : Z => (Z.abs a <= al)%Z) zs -> Forall (fun b : Z => (Z.abs b <= be)%Z) ws ->
+  ((al + be) * geom (Nat.max (length zs) (length ws)) (Z.abs xz) < 2 ^ 53)%Z ->
+  exists rp rq, peval (A := AF) p x = Ok rp /\ peval (A := AF) q x = Ok rq /\
+    peval (A := AF) (padd (A := AF) p q) x = Ok (rp + rq)%float /\
+    peval (A := AF) (psub (A := AF) p q) x = Ok (rp - rq)%float /\
+    Exact rp (horner (A := AZ) zs xz) /\ Exact rq (horner (A := AZ) ws xz).
+Print Assumptions peval_padd_psub_exact_float_input_bounds.
+Example peval_padd_psub_exact_float_input_bounds_nonvacuous :
+  Forall2 Exact exP exPz /\ Forall2 Exact exQ exQz /\ ExactW 3%float 3%Z /\ exP <> [] /\ exQ <> [] /\
+  (0 <= 5)%Z /\ (0 <= 7)%Z /\
+  Forall (fun a : Z => (Z.abs a <= 5)%Z) exPz /\ Forall (fun b : Z => (Z.abs b <= 7)%Z) exQz /\
+  ((5 + 7) * geom (Nat.max (length exPz) (length exQz)) (Z.abs 3) < 2 ^ 53)%Z.
+Proof.
+  split; [exact exP_exact|]. split; [exact exQ_exact|]. split; [exact ex_x_exact|]. split; [discriminate|].
+  split; [discriminate|]. split; [lia|]. split; [lia|]. split; [repeat constructor; cbn; lia|].
+  split; [repeat constructor; cbn; lia|]. vm_compute; reflexivity.
+Qed.
+
+(* Complex<f64> with Gaussian-integer coefficients (CExactW: both components integer-valued).  Size of a Gaussian integer:
+   cn1 g = |re g| + |im g|; the complex product is 4 real products and 2 sums, each bounded by cn1 g * cn1 h *)
+Theorem cpoly_ops_exact_float : forall (p q : list (cplx AF)) (zs ws : list (cplx AZ)),
+  Forall2 CExactW p zs -> Forall2 CExactW q ws ->
+  (Forall (fun g : cplx AZ => (cn1 g < 2 ^ 53)%Z) (padd (A := AZC) zs ws) -> Forall2 CExactW (padd (A := ACF) p q) (padd (A := AZC) zs ws)) /\
+  (Forall (fun g : cplx AZ => (cn1 g < 2 ^ 53)%Z) (psub (A := AZC) zs ws) -> Forall2 CExactW (psub (A := ACF) p q) (psub (A := AZC) zs ws)) /\
+  Forall2 CExactW (pneg (A := ACF) p) (pneg (A := AZC) zs) /\
+  (Forall (fun c : Z => (c < 2 ^ 53)%Z) (pmul (A := AZ) (map cn1 zs) (map cn1 ws)) ->
+     Forall2 CExact (pmul (A := ACF) p q) (pmul (A := AZC) zs ws)).
+Proof. exact cpoly_ops_exact_float_lemma. Qed.
+Check cpoly_ops_exact_float : forall (p q : list (cplx AF)) (zs ws : list (cplx AZ)),
+  Forall2 CExactW p zs -> Forall2 CExactW q ws ->
+  (Forall (fun g : cplx AZ => (cn1 g < 2 ^ 53)%Z) (padd (A := AZC) zs ws) -> Forall2 CExactW (padd (A := ACF) p q) (padd (A := AZC) zs ws)) /\
+  (Forall (fun g : cplx AZ => (cn1 g < 2 ^ 53)%Z) (psub (A := AZC) zs ws) -> Forall2 CExactW (psub (A := ACF) p q) (psub (A := AZC) zs ws)) /\
+  Forall2 CExactW (pneg (A := ACF) p) (pneg (A := AZC) zs) /\
+  (Forall (fun c : Z => (c < 2 ^ 53)%Z) (pmul (A := AZ) (map cn1 zs) (map cn1 ws)) ->
+     Forall2 CExact (pmul (A := ACF) p q) (pmul (A := AZC) zs ws)).
+Print Assumptions cpoly_ops_exact_float.
+(* p = (1+2i) + (3-i) x, q = (-2+i) + 4i x + (1+i) x^2 *)
+Example cpoly_ops_exact_float_nonvacuous :
+  Forall2 CExactW exCP exCPz /\ Forall2 CExactW exCQ exCQz /\
+  Forall (fun g : cplx AZ => (cn1 g < 2 ^ 53)%Z) (padd (A := AZC) exCPz exCQz) /\ Forall (fun g : cplx AZ => (cn1 g < 2 ^ 53)%Z) (psub (A := AZC) exCPz exCQz) /\
+  Forall (fun c : Z => (c < 2 ^ 53)%Z) (pmul (A := AZ) (map cn1 exCPz) (map cn1 exCQz)) /\
+  pmul (A := ACF) exCP exCQ = [cF (-4) (-3); cF (-13) 9; cF 3 15; cF 4 2]%float /\
+  pmul (A := AZC) exCPz exCQz = [cZ (-4) (-3); cZ (-13) 9; cZ 3 15; cZ 4 2]%Z.
+Proof.
+  split; [exact exCP_exactW|]. split; [exact exCQ_exactW|]. split; [fits|]. split; [fits|]. split; [fits|].
+  split; vm_compute; reflexivity.
+Qed.
+
+(* Horner for Complex<f64> at a Gaussian-integer point with sum_i cn1 a_i (cn1 x)^i < 2^53 is exact *)
+Theorem cpeval_exact_float : forall (p : list (cplx AF)) (zs : list (cplx AZ)) (x : cplx AF) (xz : cplx AZ),
+  Forall2 CExactW p zs -> CExactW x xz -> p <> [] -> ceval_fits zs xz ->
+  exists r, peval (A := ACF) p x = Ok r /\ CExactW r (horner (A := AZC) zs xz) /\
+            (Forall2 CExact p zs -> CExact r (horner (A := AZC) zs xz)).
+Proof. exact cpeval_exact_float_lemma. Qed.
+Check cpeval_exact_float : forall (p : list (cplx AF)) (zs : list (cplx AZ)) (x : cplx AF) (xz : cplx AZ),
+  Forall2 CExactW p zs -> CExactW x xz -> p <> [] -> ceval_fits zs xz ->
+  exists r, peval (A := ACF) p x = Ok r /\ CExactW r (horner (A := AZC) zs xz) /\
+            (Forall2 CExact p zs -> CExact r (horner (A := AZC) zs xz)).
+Print Assumptions cpeval_exact_float.
+Example cpeval_exact_float_nonvacuous :   (* q at x = 2 - i *)
+  Forall2 CExactW exCQ exCQz /\ CExactW (cF 2 (-1))%float (cZ 2 (-1))%Z /\ exCQ <> [] /\
+  ceval_fits exCQz (cZ 2 (-1))%Z /\
+  peval (A := ACF) exCQ (cF 2 (-1))%float = Ok (cF 9 8)%float /\ horner (A := AZC) exCQz (cZ 2 (-1))%Z = cZ 9 8.
+Proof.
+  split; [exact exCQ_exactW|]. split; [exact exCx_exact|]. split; [discriminate|].
+  split; [unfold ceval_fits; vm_compute; reflexivity|]. split; vm_compute; reflexivity.
+Qed.
+
+(* the additive evaluation law for Complex<f64>, bit for bit in both components (cadd of Model/Complex.v) *)
+Theorem cpeval_padd_exact_float : forall (p q : list (cplx AF)) (zs ws : list (cplx AZ)) (x : cplx AF) (xz : cplx AZ),
+  Forall2 CExact p zs -> Forall2 CExact q ws -> CExactW x xz -> p <> [] -> q <> [] ->
+  Forall (fun g : cplx AZ => (cn1 g < 2 ^ 53)%Z) (padd (A := AZC) zs ws) ->
+  ceval_fits zs xz -> ceval_fits ws xz -> ceval_fits (padd (A := AZC) zs ws) xz ->
+  exists rp rq, peval (A := ACF) p x = Ok rp /\ peval (A := ACF) q x = Ok rq /\
+    peval (A := ACF) (padd (A := ACF) p q) x = Ok (cadd rp rq) /\
+    CExact rp (horner (A := AZC) zs xz) /\ CExact rq (horner (A := AZC) ws xz).
+Proof. exact cpeval_padd_exact_float_lemma. Qed.
+Check cpeval_padd_exact_float : forall (p q : list (cplx AF)) (zs ws : list (cplx AZ)) (x : cplx AF) (xz : cplx AZ),
+  Forall2 CExact p zs -> Forall2 CExact q ws -> CExactW x xz -> p <> [] -> q <> [] ->
+  Forall (fun g : cplx AZ => (cn1 g < 2 ^ 53)%Z) (padd (A := AZC) zs ws) ->
+  ceval_fits zs xz -> ceval_fits ws xz -> ceval_fits (padd (A := AZC) zs ws) xz ->
+  exists rp rq, peval (A := ACF) p x = Ok rp /\ peval (A := ACF) q x = Ok rq /\
+    peval (A := ACF) (padd (A := ACF) p q) x = Ok (cadd rp rq) /\
+    CExact rp (horner (A := AZC) zs xz) /\ CExact rq (horner (A := AZC) ws xz).
+Print Assumptions cpeval_padd_exact_float.
+Example cpeval_padd_exact_float_nonvacuous :
+  Forall2 CExact exCP exCPz /\ Forall2 CExact exCQ exCQz /\ CExactW (cF 2 (-1))%float (cZ 2 (-1))%Z /\
+  exCP <> [] /\ exCQ <> [] /\ Forall (fun g : cplx AZ => (cn1 g < 2 ^ 53)%Z) (padd (A := AZC) exCPz exCQz) /\
+  ceval_fits exCPz (cZ 2 (-1))%Z /\ ceval_fits exCQz (cZ 2 (-1))%Z /\
+  ceval_fits (padd (A := AZC) exCPz exCQz) (cZ 2 (-1))%Z.
+Proof.
+  split; [exact exCP_exact|]. split; [exact exCQ_exact|]. split; [exact exCx_exact|]. split; [discriminate|].
+  split; [discriminate|]. split; [fits|]. repeat split; unfold ceval_fits; vm_compute; reflexivity.
+Qed.
+
+(* the additive evaluation law for Complex<f64>, bit for bit in both components (csub of Model/Complex.v) *)
+Theorem cpeval_psub_exact_float : forall (p q : list (cplx AF)) (zs ws : list (cplx AZ)) (x : cplx AF) (xz : cplx AZ),
+  Forall2 CExact p zs -> Forall2 CExact q ws -> CExactW x xz -> p <> [] -> q <> [] ->
+  Forall (fun g : cplx AZ => (cn1 g < 2 ^ 53)%Z) (psub (A := AZC) zs ws) ->
+  ceval_fits zs xz -> ceval_fits ws xz -> ceval_fits (psub (A := AZC) zs ws) xz ->
+  exists rp rq, peval (A := ACF) p x = Ok rp /\ peval (A := ACF) q x = Ok rq /\
+    peval (A := ACF) (psub (A := ACF) p q) x = Ok (csub rp rq) /\
+    CExact rp (horner (A := AZC) zs xz) /\ CExact rq (horner (A := AZC) ws xz).
+Proof. exact cpeval_psub_exact_float_lemma. Qed.
+Check cpeval_psub_exact_float : forall (p q : list (cplx AF)) (zs ws : list (cplx AZ)) (x : cplx AF) (xz : cplx AZ),
+  Forall2 CExact p zs -> Forall2 CExact q ws -> CExactW x xz -> p <> [] -> q <> [] ->
+  Forall (fun g : cplx AZ => (cn1 g < 2 ^ 53)%Z) (psub (A := AZC) zs ws) ->
+  ceval_fits zs xz -> ceval_fits ws xz -> ceval_fits (psub (A := AZC) zs ws) xz ->
+  exists rp rq, peval (A := ACF) p x = Ok rp /\ peval (A := ACF) q x = Ok rq /\
+    peval (A := ACF) (psub (A := ACF) p q) x = Ok (csub rp rq) /\
+    CExact rp (horner (A := AZC) zs xz) /\ CExact rq (horner (A := AZC) ws xz).
+Print Assumptions cpeval_psub_exact_float.
+Example cpeval_psub_exact_float_nonvacuous :
+  Forall2 CExact exCP exCPz /\ Forall2 CExact exCQ exCQz /\ CExactW (cF 2 (-1))%float (cZ 2 (-1))%Z /\
+  exCP <> [] /\ exCQ <> [] /\ Forall (fun g : cplx AZ => (cn1 g < 2 ^ 53)%Z) (psub (A := AZC) exCPz exCQz) /\
+  ceval_fits exCPz (cZ 2 (-1))%Z /\ ceval_fits exCQz (cZ 2 (-1))%Z /\
+  ceval_fits (psub (A := AZC) exCPz exCQz) (cZ 2 (-1))%Z.
+Proof.
+  split; [exact exCP_exact|]. split; [exact exCQ_exact|]. split; [exact exCx_exact|]. split; [discriminate|].
+  split; [discriminate|]. split; [fits|]. repeat split; unfold ceval_fits; vm_compute; reflexivity.
+Qed.
+
+(* eval (p * q) x and eval p x * eval q x hold the same Gaussian integer *)
+Theorem cpeval_pmul_exact_float : forall (p q : list (cplx AF)) (zs ws : list (cplx AZ)) (x : cplx AF) (xz : cplx AZ),
+  Forall2 CExactW p zs -> Forall2 CExactW q ws -> CExactW x xz -> p <> [] -> q <> [] ->
+  Forall (fun c : Z => (c < 2 ^ 53)%Z) (pmul (A := AZ) (map cn1 zs) (map cn1 ws)) ->
+  ceval_fits zs xz -> ceval_fits ws xz -> ceval_fits (pmul (A := AZC) zs ws) xz ->
+  (horner (A := AZ) (map cn1 zs) (cn1 xz) * horner (A := AZ) (map cn1 ws) (cn1 xz) < 2 ^ 53)%Z ->
+  exists rp rq r, peval (A := ACF) p x = Ok rp /\ peval (A := ACF) q x = Ok rq /\
+    peval (A := ACF) (pmul (A := ACF) p q) x = Ok r /\
+    CExactW r (cmul (horner (A := AZC) zs xz) (horner (A := AZC) ws xz)) /\
+    CExactW (cmul rp rq) (cmul (horner (A := AZC) zs xz) (horner (A := AZC) ws xz)).
+Proof. exact cpeval_pmul_exact_float_lemma. Qed.
+Check cpeval_pmul_exact_float : forall (p q : list (cplx AF)) (zs ws : list (cplx AZ)) (x : cplx AF) (xz : cplx AZ),
+  Forall2 CExactW p zs -> Forall2 CExactW q ws -> CExactW x xz -> p <> [] -> q <> [] ->
+  Forall (fun c : Z => (c < 2 ^ 53)%Z) (pmul (A := AZ) (map cn1 zs) (map cn1 ws)) ->
+  ceval_fits zs xz -> ceval_fits ws xz -> ceval_fits (pmul (A := AZC) zs ws) xz ->
+  (horner (A := AZ) (map cn1 zs) (cn1 xz) * horner (A := AZ) (map cn1 ws) (cn1 xz) < 2 ^ 53)%Z ->
+  exists rp rq r, peval (A := ACF) p x = Ok rp /\ peval (A := ACF) q x = Ok rq /\
+    peval (A := ACF) (pmul (A := ACF) p q) x = Ok r /\
+    CExactW r (cmul (horner (A := AZC) zs xz) (horner (A := AZC) ws xz)) /\
+    CExactW (cmul rp rq) (cmul (horner (A := AZC) zs xz) (horner (A := AZC) ws xz)).
+Print Assumptions cpeval_pmul_exact_float.
+Example cpeval_pmul_exact_float_nonvacuous :
+  Forall2 CExactW exCP exCPz /\ Forall2 CExactW exCQ exCQz /\ CExactW (cF 2 (-1))%float (cZ 2 (-1))%Z /\
+  exCP <> [] /\ exCQ <> [] /\ Forall (fun c : Z => (c < 2 ^ 53)%Z) (pmul (A := AZ) (map cn1 exCPz) (map cn1 exCQz)) /\
+  ceval_fits exCPz (cZ 2 (-1))%Z /\ ceval_fits exCQz (cZ 2 (-1))%Z /\
+  ceval_fits (pmul (A := AZC) exCPz exCQz) (cZ 2 (-1))%Z /\
+  (horner (A := AZ) (map cn1 exCPz) (cn1 (cZ 2 (-1))) * horner (A := AZ) (map cn1 exCQz) (cn1 (cZ 2 (-1))) < 2 ^ 53)%Z.
+Proof.
+  split; [exact exCP_exactW|]. split; [exact exCQ_exactW|]. split; [exact exCx_exact|]. split; [discriminate|].
+  split; [discriminate|]. split; [fits|]. repeat split; unfold ceval_fits; vm_compute; reflexivity.
+Qed.
+
